@@ -176,10 +176,13 @@ def bindings(module, top=('',), ignore=(), use_boost=False):
         full = ('',) + tuple(path)
         return all(a == b for a, b in zip(full, top))
 
+    declared = set()
+
     def walk(decls, path):
         full = ('',) + tuple(path)
         active = in_scope(path) and len(full) >= len(top)
-        if active and len(full) > len(top):
+        if active and len(full) > len(top) and tuple(path) not in declared:
+            declared.add(tuple(path))       # a namespace may be opened several times: one submodule
             out.append(('submodule', tuple(path[len(top) - 1:-1]), path[-1]))
         funcs = []
         typedefs = []
